@@ -264,6 +264,14 @@ pub fn run_engine(ctx: &Ctx, prop: &str) -> EngineResult {
             rep.sample(json!({"family": c.family, "feature": c.feature, "text": c.text()}));
         }
     }
+    if prop == "C03" {
+        let (n, vs) = super::dbgwrite::run();
+        if vs.iter().any(|v| v.signature.starts_with("C03/machinery")) {
+            return machinery(format!("debugger-write family could not run: {}", vs[0].what));
+        }
+        rep.set("debugger_write_cases", n);
+        rep.violations_from(vs);
+    }
     for (f, (a, _)) in &per_family {
         if *a == 0 {
             return machinery(format!("family {f}: no program accepted by the compiler (vacuous)"));
@@ -296,6 +304,13 @@ pub fn run_engine(ctx: &Ctx, prop: &str) -> EngineResult {
 }
 
 pub fn replay(prop: &str, case: &Value) -> Vec<Violation> {
+    if case["kind"] == "debug-write" {
+        let (_, vs) = super::dbgwrite::run();
+        return vs
+            .into_iter()
+            .filter(|v| v.case["api"] == case["api"] && v.case["value"] == case["value"] && v.case["type"] == case["type"])
+            .collect();
+    }
     let Ok(prog) = serde_json::from_value::<super::ast::Prog>(case["prog"].clone()) else { return Vec::new() };
     let family: &'static str = Box::leak(case["family"].as_str().unwrap_or("?").to_string().into_boxed_str());
     let c = Case {
